@@ -24,6 +24,8 @@ CONSTS = [
     ("evalCostBits", "8 * sizeof (eval_cost)"),
     ("frameCatch", "FRAME_CATCH"),
     ("frameMask", "FRAME_MASK"),
+    ("maxSaveDepth", "MAX_SAVE_SVALUE_DEPTH"),
+    ("composeDeletedBits", "8 * sizeof (unsigned int)"),   # the type of `deleted` in compose_mapping: site composeDeletedWidth
 ]
 
 # ---------------------------------------------------------------------------
@@ -39,6 +41,10 @@ EFUN_COVERED = {
     "lower_case": "sameSize", "upper_case": "sameSize", "capitalize": "sameSize",
     "filter": "partOf", "filter_array": "partOf", "filter_mapping": "partOf", "unique_array": "partOf",
     "unique_mapping": "partOf (at most one key per element, inserted through find_for_insert: mapInsert)",
+    "save_variable": "saveVariable (Save.lean: svalue_save_size over the value tree, then the MaxStringLength test)",
+    "restore_variable": "restoreArray / restoreMapping (allocate_array (size) and the ++count test of restore_mapping; strings are pieces of the text)",
+    "regexp": "matchRegexp (allocate_empty_array (num_match << flag))",
+    "reg_assoc": "regAssoc (allocate_empty_array (2 * num_match + 1), twice)",
 }
 _LIST = "listing of driver state: one element per object / frame / entry, clamped to MAX_ARRAY_SIZE or allocated through allocate_empty_array (errors above the limit)"
 _SMALL = "result of a fixed small size (a name, a date, a status word), or bounded by a buffer of the C code"
@@ -59,10 +65,6 @@ EFUN_EXCLUDED = {
     "read_buffer": "file / buffer input: bounded by MaxByteTransfer (own limit); file access is C15/C16",
     "read_bytes": "file input: bounded by MaxByteTransfer (own limit); file access is C15/C16",
     "read_file": "file input: bounded by MaxReadFileSize (own limit); file access is C15/C16",
-    "save_variable": "NOT ANALYSED here: the saved text of a value is as long as the value is large (C16 covers save/restore); not bounded by MaxStringLength by any test this check knows",
-    "restore_variable": "NOT ANALYSED here: rebuilds values from text (C16); mapping size is tested in restore_mapping, arrays go through allocate_empty_array",
-    "regexp": "NOT ANALYSED here: result is a subset of the input array (match_regexp allocates at most the input size)",
-    "reg_assoc": "NOT ANALYSED here: result arrays are allocated through allocate_empty_array (errors above the limit)",
     "strwrap": "not implemented by the driver (returns its argument)",
 }
 SIZED_RETURN = ("string", "mixed", "mapping", "buffer")
@@ -129,6 +131,15 @@ SITES = [
     ("repeatGuard", "lib/efuns/string.c", r"if \(count <= 0\).{0,600}?if \(len == 0\)" + W + r"return;.{0,200}?if \(repeat > \(size_t\)CONFIG_INT \(__MAX_STRING_LENGTH__\) / len\)" + W + r"error", 1, None),
     ("replaceSkipGuard", "lib/efuns/string.c", r"if \(\(size_t\)CONFIG_INT \(__MAX_STRING_LENGTH__\) - dlen <= skip\).{0,400}?dlen \+= skip;", 1, None),
     ("sprintfFinalGuard", "lib/efuns/sprintf.c", r"if \(obuff.real_size > \(size_t\)CONFIG_INT \(__MAX_STRING_LENGTH__\)\)" + W + r"sprintf_error \(ERR_BUFF_OVERFLOW\);", 1, None),
+    ("composeDeletedWidth", "lib/lpc/mapping.c", r"mapping_t\* compose_mapping \(mapping_t \* m1, mapping_t \* m2, unsigned short flag\) \{.{0,200}?unsigned int deleted = 0;.{0,1800}?deleted\+\+;.{0,900}?m1->count -= deleted;", 1, None),
+    ("saveVariableGuard", "lib/lpc/object.c", r"theSize = svalue_save_size \(var\);" + W + r"if \(theSize - 1 > \(size_t\)CONFIG_INT \(__MAX_STRING_LENGTH__\)\)" + W + r"error \(.{0,100}?\);" + W + r"new_str = new_string \(theSize - 1,", 1, None),
+    ("saveDepthGuard", "lib/lpc/object.c", r"if \(\+\+save_svalue_depth > MAX_SAVE_SVALUE_DEPTH\)" + W + r"\{" + W + r"too_deep_save_error \(\);", 3, None),
+    ("saveDepthLeave", "lib/lpc/object.c", r"save_svalue_depth--;" + W + r"return size \+ (\d+);", 3, "saveBoxOverhead"),
+    ("copyDepthGuard", "lib/efuns/unsorted.c", r"depth\+\+;" + W + r"if \(depth > MAX_SAVE_SVALUE_DEPTH\)" + W + r"\{" + W + r"depth = 0;" + W + r"error", 2, None),
+    ("regexpAlloc", "lib/lpc/array.c", r"flag &= 1;" + W + r"ret = allocate_empty_array \(num_match << flag\);", 1, None),
+    ("regAssocAlloc", "lib/lpc/array.c", r"allocate_empty_array \(2 \* num_match \+ 1\)", 2, None),
+    ("restoreArrayAlloc", "lib/lpc/object.c", r"size = restore_size \(str, 0\)\) < 0\)" + W + r"return ROB_ARRAY_ERROR;" + W + r"v = allocate_array \(size\);", 1, None),
+    ("restoreMappingGuard", "lib/lpc/object.c", r"if \(\+\+count > CONFIG_INT \(__MAX_MAPPING_SIZE__\)\)" + W + r"\{.{0,400}?mapping_too_large \(\);", 1, None),
     ("rangeClamp", "lib/lpc/operator.c", r"if \(from < 0\)" + W + r"from = 0;" + W + r"if \(to >= v->size\)" + W + r"to = v->size - 1;" + W + r"if \(to < -1\)" + W + r"to = -1;" + W + r"if \(from > v->size\)" + W + r"from = v->size;", 1, None),
 ]
 
@@ -152,6 +163,173 @@ def gen_sites(repo):
             consts[cname] = int(vals.pop())
             lines.append("/-- constant of the guard `%s` in %s -/\ndef %s : Nat := %d" % (name, rel, cname, consts[cname]))
     return "\n".join(lines) + "\n", consts, report
+
+
+
+# ---------------------------------------------------------------------------
+# translator, part 3 (gen_loop): where eval_instruction charges the evaluation cost.  Regenerated into NV/Gen/C04.lean:
+#   tickBeforeDispatch   the `if (!--eval_cost)` test stands between the fetch and `switch (instruction)` of the main loop
+#   evalLoopGotos        number of goto statements / labels in eval_instruction (a jump behind the test would skip it)
+#   backwardOps          opcodes whose case moves pc backwards (`pc -= ...`, directly or through a static helper)
+#   backwardOpsLooping   those of them that do it inside a loop of their own (would iterate without a fetch)
+#   localCallOps         opcodes that enter a function by `pc = current_prog->program + funp->address`
+# NV/C04/Loop.lean builds the charge of a fetch from these (`fetchCharge`); `bridge_backwardOps` compares the list
+# with the one the model knows.
+
+def _strip_c(text):
+    """comments, string and character literals removed (same length is not kept; braces inside them vanish)"""
+    import re
+    text = re.sub(r"/\*.*?\*/", " ", text, flags=re.S)
+    text = re.sub(r"//[^\n]*", " ", text)
+    text = re.sub(r'"(?:\\.|[^"\\\n])*"', '""', text)
+    text = re.sub(r"'(?:\\.|[^'\\\n])'", "' '", text)
+    return text
+
+
+def _drop_hooks(text):
+    """the add-only verification hooks (#ifdef NEOLITH_VERIF ... #endif) and all other preprocessor lines"""
+    out, skip = [], 0
+    for l in text.splitlines():
+        t = l.strip()
+        if t.startswith("#ifdef NEOLITH_VERIF"):
+            skip = 1
+            continue
+        if skip:
+            if t.startswith("#if"):
+                skip += 1
+            elif t.startswith("#endif"):
+                skip -= 1
+            elif t.startswith("#else") and skip == 1:
+                skip = 0
+            continue
+        if t.startswith("#"):
+            continue
+        out.append(l)
+    return "\n".join(out)
+
+
+def _block(text, start):
+    """text[start] == '{' : index just behind the matching '}'"""
+    d = 0
+    for i in range(start, len(text)):
+        if text[i] == "{":
+            d += 1
+        elif text[i] == "}":
+            d -= 1
+            if d == 0:
+                return i + 1
+    return len(text)
+
+
+def _functions(text):
+    """{name: body} of the functions defined at column 0"""
+    import re
+    fns = {}
+    for m in re.finditer(r"^(?:static\s+)?[A-Za-z_][\w \t\*]*?\b(\w+)\s*\([^;{}]*\)\s*\{", text, flags=re.M):
+        if m.group(1) in ("if", "while", "for", "switch"):
+            continue
+        b = m.end() - 1
+        fns[m.group(1)] = text[b:_block(text, b)]
+    return fns
+
+
+def _in_own_loop(body, pos):
+    """is body[pos] inside a while / for / do block of `body`?"""
+    import re
+    stack, last = [], 0
+    for i in range(pos):
+        c = body[i]
+        if c == "{":
+            head = body[last:i]
+            stack.append(bool(re.search(r"\b(while|for|do)\b[^;{}]*$", head)))
+            last = i + 1
+        elif c == "}":
+            if stack:
+                stack.pop()
+            last = i + 1
+        elif c == ";":
+            last = i + 1
+    # a loop without braces: `while (...) pc -= ...;`
+    head = body[last:pos]
+    return any(stack) or bool(re.search(r"\b(while|for|do)\b", head))
+
+
+def gen_loop(repo):
+    import re
+    from nvlib import extract as X
+    raw = open(os.path.join(repo, "src/interpret.c"), errors="replace").read()
+    text = _drop_hooks(_strip_c(raw))
+    fns = _functions(text)
+    if "eval_instruction" not in fns:
+        raise X.TieBroken("loop:eval_instruction", "eval_instruction () not found in src/interpret.c")
+    body = fns["eval_instruction"]
+    helpers = sorted(n for n, b in fns.items() if n != "eval_instruction" and re.search(r"\bpc\s*-=", b))
+    m = re.search(r"\bwhile\s*\(\s*1\s*\)\s*\{", body)
+    if not m:
+        raise X.TieBroken("loop:main-loop", "the `while (1)` loop of eval_instruction () was not found")
+    lstart = m.end() - 1
+    loop = body[lstart:_block(body, lstart)]
+    fetch = re.search(r"instruction\s*=\s*EXTRACT_UCHAR\s*\(\s*pc\+\+\s*\)\s*;", loop)
+    tick = re.search(r"if\s*\(\s*!\s*--\s*eval_cost\s*\)", loop)
+    sw = re.search(r"\bswitch\s*\(\s*instruction\s*\)\s*\{", loop)
+    ok = bool(fetch and tick and sw and fetch.start() < tick.start() < sw.start())
+    if ok:
+        between = loop[fetch.end():tick.start()]
+        # nothing but whitespace between the fetch and the test; the test is a statement of the loop body itself
+        ok = between.strip() == "" and loop[:tick.start()].count("{") - loop[:tick.start()].count("}") == 1
+        # and the block of the test ends in error (): control never falls out of it with eval_cost == 0
+        tb = loop.find("{", tick.end())
+        tblock = loop[tb:_block(loop, tb)]
+        ok = ok and bool(re.search(r"\berror\s*\(", tblock)) and loop[_block(loop, tb):sw.start()].strip() == ""
+    gotos = len(re.findall(r"\bgoto\b", body)) + len(re.findall(r"^\s*(?!default\b)[A-Za-z_]\w*\s*:\s*$", body, flags=re.M))
+    back, looping, calls = [], [], []
+    if sw:
+        sb = sw.end() - 1
+        sbody = loop[sb:_block(loop, sb)]
+        # case labels that are statements of the switch itself (brace depth 1)
+        labels, d = [], 0
+        for mm in re.finditer(r"[{}]|\bcase\s+(\w+)\s*:|\bdefault\s*:", sbody):
+            t = mm.group(0)
+            if t == "{":
+                d += 1
+            elif t == "}":
+                d -= 1
+            elif d == 1:
+                labels.append((mm.start(), mm.end(), mm.group(1) or "default"))
+        for i, (a, b, name) in enumerate(labels):
+            # the body of a label reaches to the next label that has statements of its own before it
+            j = i
+            while j + 1 < len(labels) and sbody[labels[j][1]:labels[j + 1][0]].strip() == "":
+                j += 1
+            end = labels[j + 1][0] if j + 1 < len(labels) else len(sbody)
+            cb = sbody[labels[j][1]:end]
+            hits = [x.start() for x in re.finditer(r"\bpc\s*-=", cb)]
+            via = [h for h in helpers if re.search(r"\b%s\s*\(" % h, cb)]
+            if hits or via:
+                back.append(name)
+                if any(_in_own_loop(cb, h) for h in hits) or any(
+                        _in_own_loop(cb, x.start()) for h in via for x in re.finditer(r"\b%s\s*\(" % h, cb)) or any(
+                        _in_own_loop(fns[h], x.start()) for h in via for x in re.finditer(r"\bpc\s*-=", fns[h])):
+                    looping.append(name)
+            if re.search(r"\bpc\s*=\s*current_prog->program\s*\+\s*funp->address", cb):
+                calls.append(name)
+    back, looping, calls = sorted(set(back)), sorted(set(looping)), sorted(set(calls))
+
+    def lst(xs):
+        return "[" + ", ".join('"%s"' % x for x in xs) + "]"
+    lean = "\n".join([
+        "", "/-! where eval_instruction charges the evaluation cost (props/c04.py: gen_loop, from src/interpret.c) -/",
+        "/-- the `if (!--eval_cost)` test is the statement between the fetch and `switch (instruction)` of the main loop -/",
+        "def tickBeforeDispatch : Bool := %s" % ("true" if ok else "false"),
+        "/-- goto statements and labels in eval_instruction -/", "def evalLoopGotos : Nat := %d" % gotos,
+        "/-- opcodes whose case moves pc backwards (helpers that do: %s) -/" % ", ".join(helpers),
+        "def backwardOps : List String := %s" % lst(back),
+        "/-- ... inside a loop of their own -/", "def backwardOpsLooping : List String := %s" % lst(looping),
+        "/-- opcodes that enter a function of the same program by setting pc -/",
+        "def localCallOps : List String := %s" % lst(calls),
+        "/-- ticks call_efun_callback charges per callback (site callbackTick) -/", "def callbackCharge : Nat := 1", ""])
+    return lean, {"tickBeforeDispatch": ok, "evalLoopGotos": gotos, "backwardOps": back, "backwardOpsLooping": looping,
+                  "localCallOps": calls, "helpers": helpers}
 
 
 BASE_CONF = "MaxCallDepth 200\nStackSize 2000\n"
@@ -376,7 +554,8 @@ class C04(Prop):
     def gen_extra(self, ctx, bdir):
         text, consts, report = gen_sites(E.REPO)
         self.site_report = report
-        return text
+        loop_text, self.loop_info = gen_loop(E.REPO)
+        return text + loop_text
 
     def extra_checks(self, ctx, tier, rng):
         inv = efun_inventory(E.REPO)
